@@ -25,6 +25,17 @@ func init() {
 }
 
 func runC02(c *Ctx) {
+	// "each at the revision its ordinal calls for": without a partition the revision of a pod that is created again is
+	// chosen by the stored status.currentReplicas, so that counter has to leave out what is on its way out -- a pod
+	// the update walk has just deleted and that is still terminating must not be counted back in, or its replacement
+	// is built from the old revision again and the roll-out never ends (the census rule of C12, as a clause of this property)
+	{
+		n0 := len(c.Obs)
+		c.only = map[string]string{"C12.2-census-live-pods-only": "C02.8-revision-counters-leave-out-terminating-pods"}
+		runC12(c)
+		c.only = nil
+		c.Floor("C02.8-census-revision-counters", len(c.Obs)-n0, 2)
+	}
 	c.quiescencePossible()
 	c.statusWriteGuard()
 	c.stateless("C02.3")
